@@ -698,6 +698,13 @@ without NSTART room — whose timeout `T = coap_calc_timeout(…, r)` is positiv
 (`T << MAX_RETRANSMIT` < 2^64), `rxAck`, `rxRst`; any number of sessions (`SessOk`: established, socket open,
 1 ≤ NSTART, MAX_RETRANSMIT < 256, nothing delayed initially) sharing the one send queue.  This is the alphabet of the
 property; NON messages, separate responses (cancel by token), invalid codes and session failures belong to C08. -/
+/-- witness run with the NSTART gate: ONE session with NSTART 1; message 2 is submitted while message 1 is in flight
+(delayed), message 1 runs out of retransmissions (MAX_RETRANSMIT 1), the give-up inside the due loop releases the
+slot and message 2 is transmitted at that instant; it is retransmitted on its own schedule and then ACKed -/
+def gevs : List Msg.Ev :=
+  [.submit 0 true 1 0, .setNow 100, .submit 0 true 2 255, .setNow 2000, .prepare, .setNow 6000, .prepare,
+   .setNow 9000, .prepare, .rxAck 0 2]
+
 open Coap.Sim Coap.Sched in
 /-- **m_schedule_all** (`retransmit_schedule` on M, full): in EVERY punctual run over the C06 alphabet, any number of
 messages and sessions sharing the send queue, NSTART-delayed messages included: every transmission `tx t s mid k con`
@@ -716,22 +723,53 @@ theorem m_schedule_all (now0 : Nat) (sess : List Msg.Sess) (evs : List Msg.Ev)
   have hi := run_finv (pu := True) (P := fun s mid T => ∃ r, Msg.Ev.submit s true mid r ∈ evs ∧
       T = calcTimeout (parOf sess s).atI (parOf sess s).atF (parOf sess s).arfI (parOf sess s).arfF r)
     (gpar_of sess hs) evs _ (finv_init _ _ now0 sess hs) hin (fun _ => hpu) (fun s mid r h => ⟨r, h, rfl⟩)
-  obtain ⟨hc, t0, T, h0, hsch, hk, r, hsub, hT⟩ := hi.outs trivial t s mid k con hmem
+  obtain ⟨hc, t0, T, h0, hsch, hk, r, hsub, hT⟩ := (hi.outs trivial).1 t s mid k con hmem
   exact ⟨hc, t0, r, hsub, h0, by rw [← hT]; exact hsch, hk⟩
 
 open Coap.Sim Coap.Sched in
 /-- **m_pending_on_schedule** (`pending_on_schedule` on M, full): … and every node in the send queue is armed for
-the next slot of the schedule of its message: its absolute deadline is `t0 + (2^(cnt+1) − 1)·T` with `t0` the time
-of its first transmission (which is in the outputs) and `T` its stored timeout. -/
+the next slot of the schedule of its message, with ALL its transmissions so far made at their slots: for some `t0`,
+transmission number `j` at `t0 + (2^j − 1)·T` is in the outputs for every `j ≤ cnt` (no slot skipped), and its absolute
+deadline is `t0 + (2^(cnt+1) − 1)·T`, `T` its stored timeout. -/
 theorem m_pending_on_schedule (now0 : Nat) (sess : List Msg.Sess) (evs : List Msg.Ev)
     (hs : ∀ se ∈ sess, SessOk se) (hin : RunG (Msg.init now0 sess) evs) (hpu : Punctual (Msg.init now0 sess) evs) :
     let l := Msg.run (Msg.init now0 sess) evs
     ∀ p ∈ absP (fun s => (parOf sess s).maxRtx) l.q.base l.q.nodes,
-      ∃ t0, Msg.Out.tx t0 p.2.sess p.2.mid 0 true ∈ l.out ∧ p.1 = sched t0 p.2.T (p.2.cnt + 1) := by
+      ∃ t0, (∀ j, j ≤ p.2.cnt → Msg.Out.tx (sched t0 p.2.T j) p.2.sess p.2.mid j true ∈ l.out) ∧
+        p.1 = sched t0 p.2.T (p.2.cnt + 1) := by
   intro l p hp
   have hi := run_finv (pu := True) (P := fun _ _ _ => True)
     (gpar_of sess hs) evs _ (finv_init _ _ now0 sess hs) hin (fun _ => hpu) (fun _ _ _ _ => trivial)
   exact hi.pend p hp trivial
+
+open Coap.Sim Coap.Sched in
+/-- **m_giveup_after_all_retransmissions** (full): in every punctual run over the C06 alphabet, a TOO_MANY_RETRIES NACK
+for (s, mid) is only ever reported after ALL `MAX_RETRANSMIT + 1` transmissions of that message have been made, each at
+its slot `t0 + (2^j − 1)·T` (j = 0 … MAX_RETRANSMIT), and exactly at the next slot `t0 + (2^(MAX_RETRANSMIT+1) − 1)·T`;
+`T` is the `coap_calc_timeout` value of a `coap_send` of (s, mid) in the run. -/
+theorem m_giveup_after_all_retransmissions (now0 : Nat) (sess : List Msg.Sess) (evs : List Msg.Ev)
+    (hs : ∀ se ∈ sess, SessOk se) (hin : RunG (Msg.init now0 sess) evs) (hpu : Punctual (Msg.init now0 sess) evs) :
+    ∀ t s mid, Msg.Out.nack t s .retries mid true ∈ (Msg.run (Msg.init now0 sess) evs).out →
+      ∃ t0 r, Msg.Ev.submit s true mid r ∈ evs ∧
+        (∀ j, j ≤ (parOf sess s).maxRtx →
+          Msg.Out.tx (sched t0 (calcTimeout (parOf sess s).atI (parOf sess s).atF (parOf sess s).arfI
+            (parOf sess s).arfF r) j) s mid j true ∈ (Msg.run (Msg.init now0 sess) evs).out) ∧
+        t = sched t0 (calcTimeout (parOf sess s).atI (parOf sess s).atF (parOf sess s).arfI (parOf sess s).arfF r)
+          ((parOf sess s).maxRtx + 1) := by
+  intro t s mid hmem
+  have hi := run_finv (pu := True) (P := fun s mid T => ∃ r, Msg.Ev.submit s true mid r ∈ evs ∧
+      T = calcTimeout (parOf sess s).atI (parOf sess s).atF (parOf sess s).arfI (parOf sess s).arfF r)
+    (gpar_of sess hs) evs _ (finv_init _ _ now0 sess hs) hin (fun _ => hpu) (fun s mid r h => ⟨r, h, rfl⟩)
+  obtain ⟨t0, T, hall, ht, r, hsub, hT⟩ := (hi.outs trivial).2 t s mid hmem
+  subst hT
+  exact ⟨t0, r, hsub, hall, ht⟩
+
+open Coap.Sim Coap.Sched in
+/-- non-vacuity of `m_giveup_after_all_retransmissions`: in the gated witness run message 1 (MAX_RETRANSMIT 1,
+T = 2000) is given up at 6000 = 0 + (2^2 − 1)·2000 after transmissions 0 and 1 at 0 and 2000 -/
+example : Msg.Out.nack 6000 0 .retries 1 true ∈ (Msg.run (Msg.init 0 [{ maxRtx := 1 }]) gevs).out ∧
+    sched 0 2000 2 = 6000 ∧ Msg.Out.tx (sched 0 2000 0) 0 1 0 true ∈ (Msg.run (Msg.init 0 [{ maxRtx := 1 }]) gevs).out ∧
+    Msg.Out.tx (sched 0 2000 1) 0 1 1 true ∈ (Msg.run (Msg.init 0 [{ maxRtx := 1 }]) gevs).out := by decide
 
 open Coap.Sim Coap.Sched in
 /-- **m_pdu_and_timeout_fixed** (byte identity of retransmissions and `T` drawn ONCE, as an invariant, full): in EVERY
@@ -773,13 +811,6 @@ theorem m_pdu_and_timeout_fixed (now0 : Nat) (sess : List Msg.Sess) (evs : List 
   · intro s
     obtain ⟨ca, dq, hg, hle, _⟩ := hi.sess s
     rw [hg]; exact hle
-
-/-- witness run with the NSTART gate: ONE session with NSTART 1; message 2 is submitted while message 1 is in flight
-(delayed), message 1 runs out of retransmissions (MAX_RETRANSMIT 1), the give-up inside the due loop releases the
-slot and message 2 is transmitted at that instant; it is retransmitted on its own schedule and then ACKed -/
-def gevs : List Msg.Ev :=
-  [.submit 0 true 1 0, .setNow 100, .submit 0 true 2 255, .setNow 2000, .prepare, .setNow 6000, .prepare,
-   .setNow 9000, .prepare, .rxAck 0 2]
 
 open Coap.Sim Coap.Sched in
 /-- non-vacuity of `m_schedule_all` / `m_pending_on_schedule` / `m_pdu_and_timeout_fixed`: the gated witness run is in
